@@ -16,7 +16,9 @@ CACHE = os.path.join(WORK, "cache")              # per-obligation results keyed 
 REPLAYS = os.path.join(WORK, "replays")
 CONTRACTS = os.path.join(ROOT, "contracts")
 VERUS_DIR = os.path.join(ROOT, "verus")
-EVIDENCE = os.path.join(ROOT, "evidence")
+# the committed evidence directory describes /repo only: a run against another tree (self test) writes elsewhere
+EVIDENCE = os.environ.get("VERIF_EVIDENCE") or (
+    os.path.join(ROOT, "evidence") if os.path.realpath(REPO) == "/repo" else os.path.join(WORK, "evidence-other-tree"))
 
 OFFLINE_ENV = {"CARGO_NET_OFFLINE": "true"}
 
